@@ -25,6 +25,7 @@ H = {
     'table_xor_linear': ('k_tables.rs', 'crate', ('thorough',), 'TABLE is XOR-linear in its index', 'complete (two symbolic bytes)'),
     'common_tables': ('k_common.rs', 'crate', ('quick', 'thorough'), 'COMMON_INPUTS / _INV: index <= 63, inverse pair', 'complete (256 concrete entries)'),
     'common_tables_pinned': ('k_common.rs', 'crate', ('quick', 'thorough'), 'COMMON_INPUTS equals the table of format versions 1-3 (pinned literal)', 'complete (256 concrete entries)'),
+    'slot_order': ('k_slot.rs', 'crate', ('quick', 'thorough'), 'impl Ord / PartialOrd for Slot == reverse of (key, then output)', 'BOUNDED: keys of up to 3 bytes (all bytes, all outputs)'),
     'find_input_scan': ('k_scan.rs.tmpl', 'scan', ('quick', 'thorough'), 'R11: linear scan of find_input', 'window'),
     'seek_position': ('k_scan.rs.tmpl', 'scan', ('quick', 'thorough'), 'R11: position(|t| t.inp > b).unwrap_or(len)', 'window'),
     'getkey_take_while_last': ('k_scan.rs.tmpl', 'scan', ('quick', 'thorough'), 'R11: take_while(out <= value).last()', 'window'),
@@ -75,6 +76,8 @@ def parse_kani(out):
             continue
         if cur is None:
             continue
+        if ln.startswith('CBMC failed') or 'CBMC appears to have run out of memory' in ln or 'CBMC timed out' in ln or ln.startswith('CBMC crashed'):
+            res[cur]['tool_failure'] = ln.strip()
         if ln.startswith('VERIFICATION:- '):
             res[cur]['status'] = ln.split('- ')[1].strip()
         m = re.match(r'^ \*\* (\d+) of (\d+) cover properties satisfied', ln)
@@ -209,7 +212,10 @@ def run_groups(harnesses, tier, repo, work):
             else:
                 r['discharged'] += 1
         else:
-            if any('unwinding assertion' in f for f in x['failed']):
+            if x.get('tool_failure') or not x['failed']:
+                # CBMC itself failed (memory, crash, timeout), or reported FAILED without naming a failed check: a tool limit
+                r['undecided'].append('kani harness %s: no verdict from CBMC (%s)' % (h, x.get('tool_failure') or 'FAILED without a failed check'))
+            elif any('unwinding assertion' in f for f in x['failed']):
                 r['undecided'].append('kani harness %s: unwinding assertion failed (bound too small)' % h)
             else:
                 cex = None
